@@ -92,6 +92,10 @@ fn apply_ops(st: &mut St, ops: &[&str]) -> Result<(), String> {
                 let b = write_bytes(old)?;
                 *st = reopen(*r == "a", b, FULL)?;
             }
+            ["g", id] => {
+                // a lookup (its answer is judged elsewhere; here it is an event of the history)
+                get(st, unhex_u64(id))?;
+            }
             _ => return Err(format!("unsupported op {o}")),
         }
     }
@@ -1704,6 +1708,24 @@ pub fn gen(prop: &str, rng: &mut Rng, quick: bool, st: &mut Stats) -> Option<Vec
                 let (sa, sb, sd) = (a.join(";"), b.join(";"), d.join(";"));
                 c.push(format!("chk_canonical {mode} {sa} {sb}"));
                 c.push(format!("chk_canonical {mode} {sa} {sd}"));
+                {
+                    // after a reopen: lookups, temporary twins of looked-up tiles, refused (empty) adds of existing and
+                    // of absent ids - none of it changes the logical archive
+                    let m = &mode[..1];
+                    let mut extra: Vec<String> = vec![format!("s:{m}:{m}")];
+                    for (n, (id, ct)) in l.tiles.iter().enumerate().take(5) {
+                        let twin = BASE32 - 40 - n as u64;
+                        let h = hex_bytes(ct);
+                        match n % 3 {
+                            0 => extra.extend([format!("g:{id:x}"), format!("a:{twin:x}:{h}"), format!("r:{twin:x}"), format!("g:{id:x}")]),
+                            1 => extra.extend([format!("a:{id:x}:-"), format!("g:{id:x}"), format!("a:{twin:x}:-")]),
+                            _ => extra.extend([format!("a:{twin:x}:{h}"), format!("g:{twin:x}"), format!("g:{id:x}"), format!("r:{twin:x}"), format!("a:{id:x}:-")]),
+                        }
+                    }
+                    let cat = |parts: &[&str]| parts.iter().filter(|p| !p.is_empty()).copied().collect::<Vec<_>>().join(";");
+                    c.push(format!("chk_canonical {mode} {sa} {}", cat(&[&sd, &extra.join(";")])));
+                    c.push(format!("chk_canonical {mode} {sa} {}", cat(&[&sa, &extra[1..].join(";")])));
+                }
                 c.push(format!("chk_rewrite {mode} {sa}"));
                 if size <= 100 {
                     let m = &mode[..1];
